@@ -148,7 +148,7 @@ pub fn gen_case(prop: &str, seed: u64) -> SdCase {
             0 => r.range(0, 120),
             _ => r.range(0, est_bytes),
         };
-        card.adversary = match r.below(if prop == "C14" { 6 } else { 16 }) {
+        card.adversary = match r.below(if prop == "C14" { 7 } else { 17 }) {
             0 | 1 => {
                 let nb = match r.below(4) {
                     0 => 1,
@@ -169,7 +169,18 @@ pub fn gen_case(prop: &str, seed: u64) -> SdCase {
             4 => Adversary::BadToken { block_no: r.below(3) as u32, token: *r.pick(&[0x01u8, 0x03, 0x05, 0x09, 0x00, 0x7F, 0xFC]) },
             5 if prop == "C14" && r.chance(1, 2) => Adversary::TooSlow,
             5 => Adversary::SilentFrom(k),
+            6 if prop == "C14" => match r.below(3) {
+                0 => Adversary::Cmd55Damaged { nth: r.below(4) as u32 },
+                1 => Adversary::AcmdDamaged { nth: r.below(4) as u32 },
+                _ => Adversary::Cmd8Damaged { nth: r.below(2) as u32 },
+            },
+            16 => match r.below(3) {
+                0 => Adversary::Cmd55Damaged { nth: r.below(5) as u32 },
+                1 => Adversary::AcmdDamaged { nth: r.below(5) as u32 },
+                _ => Adversary::Cmd8Damaged { nth: r.below(2) as u32 },
+            },
             6 => Adversary::BusyFrom(k),
+            7 if r.chance(1, 3) => Adversary::ConstFrom(k, *r.pick(&[0x55u8, 0xAA, 0x7F, 0x80, 0x01, 0xFE])),
             7 => Adversary::GarbageFrom(k),
             8 => {
                 bus_fail_at = Some(r.range(0, 400));
@@ -209,7 +220,7 @@ pub fn gen_case(prop: &str, seed: u64) -> SdCase {
     }
     let mut use_crc = use_crc;
     let mut acquire_retries = *r.pick(&[50u32, 50, 1, 5, 0]);
-    if acquire_retries == 0 && bus_fail_at.is_none() && !matches!(card.adversary, Adversary::SilentFrom(_) | Adversary::BusyFrom(_) | Adversary::GarbageFrom(_)) {
+    if acquire_retries == 0 && bus_fail_at.is_none() && !matches!(card.adversary, Adversary::SilentFrom(_) | Adversary::BusyFrom(_) | Adversary::GarbageFrom(_) | Adversary::ConstFrom(..)) {
         // "no retries" is only a legal expectation of success when the card answers the first CMD0 properly
         card.cmd0_bad_answers = 0;
     }
@@ -336,7 +347,7 @@ pub fn sd_eval(prop: &'static str, case: &SdCase) -> CaseOutcome {
     let crc_refused = case.card.cmd59_illegal && case.use_crc;
     let adversarial = case.card.adversary != Adversary::None || case.bus_fail_at.is_some() || crc_refused;
     let unreliable_answers = matches!(case.card.adversary, Adversary::GarbageFrom(_) | Adversary::BusyFrom(_));
-    let wire_altered0 = matches!(case.card.adversary, Adversary::SwapCrc { .. } | Adversary::StuckHigh { .. } | Adversary::FlipBits { .. } | Adversary::SilentFrom(_) | Adversary::BusyFrom(_) | Adversary::GarbageFrom(_));
+    let wire_altered0 = matches!(case.card.adversary, Adversary::SwapCrc { .. } | Adversary::StuckHigh { .. } | Adversary::FlipBits { .. } | Adversary::SilentFrom(_) | Adversary::BusyFrom(_) | Adversary::GarbageFrom(_) | Adversary::ConstFrom(..));
     let mut h = 0xcbf29ce484222325u64;
     let mut failed_once = false;
     let mut init_failed_last = false;
@@ -458,7 +469,7 @@ pub fn sd_eval(prop: &'static str, case: &SdCase) -> CaseOutcome {
                     }
                     // with CRC on, Ok means every block's CRC matched: the data must be the card's
                     // without CRC nothing lets the driver notice bytes altered on the wire: nothing is demanded then
-                    let wire_altered = matches!(case.card.adversary, Adversary::SwapCrc { .. } | Adversary::StuckHigh { .. } | Adversary::FlipBits { .. } | Adversary::SilentFrom(_) | Adversary::BusyFrom(_) | Adversary::GarbageFrom(_));
+                    let wire_altered = matches!(case.card.adversary, Adversary::SwapCrc { .. } | Adversary::StuckHigh { .. } | Adversary::FlipBits { .. } | Adversary::SilentFrom(_) | Adversary::BusyFrom(_) | Adversary::GarbageFrom(_) | Adversary::ConstFrom(..));
                     let judge_data = !unreliable_answers && (case.use_crc || !wire_altered) && !rg.card.borrow().corruption_undetectable;
                     if judge_data && in_range {
                         for (k, b) in bufs.iter().enumerate() {
@@ -601,6 +612,14 @@ pub fn sd_eval(prop: &'static str, case: &SdCase) -> CaseOutcome {
                         push("C13", "bus-error-swallowed", opk, String::new(), i);
                     }
                 }
+                // the CRC mode the caller asked for is the card's mode whenever a data command went through
+                // (CMD0 switches the card's checking off: every identification has to switch it on again)
+                if case.use_crc && matches!(op, SdOp::Read { .. } | SdOp::Write { .. } | SdOp::NumBlocks | SdOp::NumBytes) {
+                    let c = rg.card.borrow();
+                    if c.is_initialised() && !c.crc_checking() && !unreliable_answers {
+                        push(if adversarial { "C13" } else { "C12" }, "crc-requested-but-card-not-checking", opk, "the driver was created with CRC on, the call succeeded, but the card is in CRC-off mode (no CMD59 since its last CMD0)".to_string(), i);
+                    }
+                }
                 if !matches!(op, SdOp::MarkUninit | SdOp::Swap { .. }) {
                     init_failed_last = false;
                     driver_init = true;
@@ -613,7 +632,7 @@ pub fn sd_eval(prop: &'static str, case: &SdCase) -> CaseOutcome {
             // a host that re-initialises after a failed call has no better option than CMD0, busy or not
             rg.card.borrow_mut().strict_cmd0 = false;
         }
-        let transient = matches!(case.card.adversary, Adversary::SwapCrc { .. } | Adversary::StuckHigh { .. } | Adversary::FlipBits { .. } | Adversary::BadToken { .. } | Adversary::RejectWrite { .. } | Adversary::Cmd13Error { .. }) && case.bus_fail_at.is_none();
+        let transient = matches!(case.card.adversary, Adversary::SwapCrc { .. } | Adversary::StuckHigh { .. } | Adversary::FlipBits { .. } | Adversary::BadToken { .. } | Adversary::RejectWrite { .. } | Adversary::Cmd13Error { .. } | Adversary::Cmd55Damaged { .. } | Adversary::AcmdDamaged { .. } | Adversary::Cmd8Damaged { .. }) && case.bus_fail_at.is_none();
         if matches!(res, CallRes::Err(_)) && adversarial && transient {
             // a one-off fault: the card is healthy and in a defined state; the calls that follow must be a
             // legal conversation and must work (judged by the ordinary oracles below and by the checker)
@@ -702,7 +721,7 @@ pub fn sd_eval(prop: &'static str, case: &SdCase) -> CaseOutcome {
         }
         out.dev_calls = c.bytes;
         out.sim_seconds = rg.ns.get() / 1_000_000_000;
-        for (k, n) in [("flip_bits", matches!(case.card.adversary, Adversary::FlipBits { .. })), ("silent", matches!(case.card.adversary, Adversary::SilentFrom(_))), ("busy_forever", matches!(case.card.adversary, Adversary::BusyFrom(_))), ("garbage", matches!(case.card.adversary, Adversary::GarbageFrom(_))), ("reject_write", matches!(case.card.adversary, Adversary::RejectWrite { .. })), ("cmd13_error", matches!(case.card.adversary, Adversary::Cmd13Error { .. })), ("bad_token", matches!(case.card.adversary, Adversary::BadToken { .. })), ("too_slow", matches!(case.card.adversary, Adversary::TooSlow)), ("stuck_high", matches!(case.card.adversary, Adversary::StuckHigh { .. })), ("cmd8_bad_echo", case.card.adversary == Adversary::Cmd8BadEcho), ("cmd55_illegal", case.card.adversary == Adversary::Cmd55Illegal), ("swapped_crc_bytes", matches!(case.card.adversary, Adversary::SwapCrc { .. })), ("every_command_crc_error", case.card.adversary == Adversary::AlwaysCrcError)] {
+        for (k, n) in [("flip_bits", matches!(case.card.adversary, Adversary::FlipBits { .. })), ("silent", matches!(case.card.adversary, Adversary::SilentFrom(_))), ("busy_forever", matches!(case.card.adversary, Adversary::BusyFrom(_))), ("garbage", matches!(case.card.adversary, Adversary::GarbageFrom(_) | Adversary::ConstFrom(..))), ("reject_write", matches!(case.card.adversary, Adversary::RejectWrite { .. })), ("cmd13_error", matches!(case.card.adversary, Adversary::Cmd13Error { .. })), ("bad_token", matches!(case.card.adversary, Adversary::BadToken { .. })), ("too_slow", matches!(case.card.adversary, Adversary::TooSlow)), ("stuck_high", matches!(case.card.adversary, Adversary::StuckHigh { .. })), ("cmd8_bad_echo", case.card.adversary == Adversary::Cmd8BadEcho), ("cmd55_illegal", case.card.adversary == Adversary::Cmd55Illegal), ("swapped_crc_bytes", matches!(case.card.adversary, Adversary::SwapCrc { .. })), ("every_command_crc_error", case.card.adversary == Adversary::AlwaysCrcError), ("cmd55_frame_damaged", matches!(case.card.adversary, Adversary::Cmd55Damaged { .. })), ("application_command_frame_damaged", matches!(case.card.adversary, Adversary::AcmdDamaged { .. })), ("cmd8_frame_damaged", matches!(case.card.adversary, Adversary::Cmd8Damaged { .. })), ("constant_byte_for_ever", matches!(case.card.adversary, Adversary::ConstFrom(..)))] {
             if n && c.adversary_fired > 0 {
                 *out.faults.entry(k.to_string()).or_insert(0) += 1;
             }
